@@ -44,7 +44,8 @@ func worldUDP(w *World) {
 	} else {
 		px = map[string]any{"name": "u", "type": "udp", "localIP": "127.0.0.1", "localPort": 9200, "remotePort": 20100, "transport": tr}
 	}
-	ctr := map[string]any{"tcpMux": tcpMux, "connectServerLocalIP": "10.0.1.1", "tls": map[string]any{"enable": w.KnobBool("tls", 50)}, "poolCount": w.KnobPick("pool", 0, 1, 2)}
+	tlsOn := w.KnobBool("tls", 50)
+	ctr := map[string]any{"tcpMux": tcpMux, "connectServerLocalIP": "10.0.1.1", "tls": map[string]any{"enable": tlsOn}, "poolCount": w.KnobPick("pool", 0, 1, 2)}
 	c1 := w.Net.NewNode("frpc1", "10.0.1.1")
 	if _, err := w.StartFrpc(c1, map[string]any{"serverAddr": "10.0.0.1", "serverPort": 7000, "loginFailExit": false, "udpPacketSize": pktSize,
 		"auth": map[string]any{"token": token}, "transport": ctr, "proxies": []map[string]any{px}}); err != nil {
@@ -270,11 +271,18 @@ func worldUDP(w *World) {
 		})
 	}
 	// work-connection replacement in the middle of the flow
+	pooledMayBeDead := false
+	// (the connection in use, not an idle pooled one: the loss of those cannot be noticed before they are used and
+	// would be paid for by datagrams sent long after the faults have stopped)
 	if w.In.Faults && !tcpMux && w.KnobBool("reset_workconn", 60) {
 		w.Net.At(time.Duration(r.Range(200, 1500))*time.Millisecond, "reset-udp-workconn", func() {
 			ids := w.Net.PairsMatching(func(link string, id int) bool { return strings.HasPrefix(link, "frpc1>10.0.0.1:7000") })
-			if len(ids) > 1 {
-				w.Net.ResetPair(ids[len(ids)-1])
+			for i := len(ids) - 1; i >= 1; i-- {
+				if tlsOn || w.Net.Pair(ids[i]).Sent[1] > 0 {
+					w.Net.ResetPair(ids[i])
+					pooledMayBeDead = pooledMayBeDead || tlsOn
+					break
+				}
 			}
 		})
 	}
@@ -289,17 +297,42 @@ func worldUDP(w *World) {
 	}
 	var recSent [][]rsent
 	var recGot []map[string]int
+	recCheck := false
 	if w.KnobBool("recovery_phase", 70) {
 		legFaultsOff.Store(true)
-		// the last fault may be the loss of every work connection while the tunnel is idle
-		if w.In.Faults && !tcpMux && w.KnobBool("idle_reset_workconns", 50) {
+		w.Net.SetSpikeProb(0)
+		// the first phase may have offered more than the simulated path carries: wait until the path has drained
+		// (no bytes in flight between the clients and the server for two seconds running)
+		betweenClientsAndServer := func(link string) bool { return strings.Contains(link, ">10.0.0.1:7000") }
+		quiet := 0
+		drained := w.WaitUntil(10*time.Minute, 500*time.Millisecond, func() bool {
+			if w.Net.PendingBytes(betweenClientsAndServer) == 0 {
+				quiet++
+			} else {
+				quiet = 0
+			}
+			return quiet >= 4
+		})
+		if !drained {
+			w.Probe("udp.path_never_drained")
+		}
+		// the last fault may be the loss of the work connection in use while the tunnel is idle. (Idle pooled
+		// connections are left alone: without multiplexing nobody can notice their loss before they are used, so the
+		// first datagrams afterwards would legitimately pay for it.) The connection in use is the one on which the
+		// server has sent something; with TLS every connection carries handshake bytes of the server, so no reset then.
+		if drained && w.In.Faults && !tcpMux && !tlsOn && w.KnobBool("idle_reset_workconns", 50) {
 			time.Sleep(time.Duration(r.Range(1, 5)) * time.Second)
 			ids := w.Net.PairsMatching(func(link string, id int) bool { return strings.HasPrefix(link, "frpc1>10.0.0.1:7000") })
 			for _, id := range ids[min(1, len(ids)):] {
-				w.Net.ResetPair(id)
-				w.Probe("udp.idle_workconn_reset")
+				if w.Net.Pair(id).Sent[1] > 0 {
+					w.Net.ResetPair(id)
+					w.Probe("udp.idle_workconn_reset")
+				}
 			}
 		}
+		// (sudp sets up a work connection per visitor connection, on demand: a pooled connection that died unnoticed
+		// is found out by the first datagrams)
+		recCheck = drained && !(sudp && pooledMayBeDead)
 		time.Sleep(time.Duration(r.Range(3, 20)) * time.Second)
 		nrec := w.KnobPick("recovery_users", 1, 2, 3)
 		recSent = make([][]rsent, nrec)
@@ -458,7 +491,7 @@ func worldUDP(w *World) {
 		}
 	}
 	// 4. after the faults: light load on a healthy tunnel
-	if len(recSent) > 0 {
+	if len(recSent) > 0 && recCheck {
 		w.Check("C03.delivery-after-faults")
 		for u, ss := range recSent {
 			for _, s := range ss {
